@@ -299,6 +299,26 @@ static void scn_mpool(uint64_t seed)
         }
     }
     ABTI_mem_pool_destroy_local_pool(&g_lp[2]);
+    {
+        /* conservation: every block is back in the global pool now; local pools that come and go,
+         * each taking and returning some blocks (so that partial buckets are merged again and
+         * again), must be served from what is there -- no further page is obtained */
+        long live0 = abtv_ledger_live();
+        for (int rep = 0; rep < 6; rep++) {
+            ABTI_mem_pool_local_pool lp;
+            void *some[24];
+            int ns = 1 + rnd(3 * nb);
+            if (ABTI_mem_pool_init_local_pool(&lp, &g_gp) != ABT_SUCCESS)
+                abtv_fail("crash:api-error", ABTV_EXIT_CRASH);
+            for (int i = 0; i < ns; i++)
+                if (ABTI_mem_pool_alloc(&lp, &some[i]) != ABT_SUCCESS)
+                    abtv_fail("crash:api-error", ABTV_EXIT_CRASH);
+            for (int i = 0; i < ns; i++)
+                ABTI_mem_pool_free(&lp, some[i]);
+            ABTI_mem_pool_destroy_local_pool(&lp);
+        }
+        EV("\"e\":\"PConserve\",\"live0\":%ld,\"live1\":%ld", live0, abtv_ledger_live());
+    }
     ABTI_mem_pool_destroy_global_pool(&g_gp);
     EV("\"e\":\"Ledger\",\"live\":%ld,\"errors\":%ld,\"allocs\":%d", abtv_ledger_live(), abtv_ledger_errors(), abtv_ledger_allocs() > 0);
     abtv_ledger_track(0);
